@@ -15,11 +15,38 @@ pub enum LitKind {
     Sym,
     /// "digits with at most one inner or leading or trailing dot"
     Number,
+    /// scalar literals of the value type: digits[.digits] | true | false (arrays are never generated)
+    Val,
 }
 impl LitKind {
     pub fn prefix(self, s: &str) -> Option<usize> {
         match self {
             LitKind::Sym => parse_lit_prefix(s).map(|x| x.1),
+            LitKind::Val => {
+                for w in ["true", "false"] {
+                    if s.starts_with(w) {
+                        return Some(w.len());
+                    }
+                }
+                let b = s.as_bytes();
+                let mut n = 0;
+                while n < b.len() && b[n].is_ascii_digit() {
+                    n += 1;
+                }
+                if n == 0 {
+                    return None;
+                }
+                if n < b.len() && b[n] == b'.' {
+                    let mut m = n + 1;
+                    while m < b.len() && b[m].is_ascii_digit() {
+                        m += 1;
+                    }
+                    if m > n + 1 {
+                        n = m;
+                    }
+                }
+                Some(n)
+            }
             LitKind::Number => {
                 let mut dots = 0;
                 let mut n = 0;
